@@ -192,8 +192,14 @@ func (table *Table) DispatchAggregate(buf []byte) {
 	routed := false
 	log.Tracef("table received aggregate packet %s", buf)
 
+	// filters apply to the metric name, not to the value and timestamp
+	name := buf
+	if pos := bytes.IndexByte(buf, ' '); pos >= 0 {
+		name = buf[:pos]
+	}
+
 	for _, route := range conf.routes {
-		if route.Match(buf) {
+		if route.Match(name) {
 			routed = true
 			log.Tracef("table sending to route: %s", buf)
 			route.Dispatch(buf)
